@@ -595,6 +595,8 @@ func runC08(c *Ctx) {
 	clauseUpdateKeepsRemoteMark(c, "C08.g")
 	clauseCommitAfterRename(c, "C08.h")
 	clauseCleanupSkipsOnlyLive(c, "C08.i")
+	clauseCheckAnswersFromBackend(c, "C08.j")
+	clauseReclaimReallyRemoves(c, "C08.k")
 	c.assume("containerd's storage package returns ParentIDs nearest parent first and IDMap/WalkInfo reflect the transaction's view")
 }
 
@@ -810,6 +812,7 @@ func runC09(c *Ctx) {
 	clauseKnownMountIsLive(c, "C09.h")
 	clauseFreshDecodeTarget(c, "C09.i")
 	clauseCleanupSkipsOnlyLive(c, "C09.j")
+	clauseReclaimReallyRemoves(c, "C09.l")
 	clauseRestartFlagWiring(c, "C09.k")
 	c.clause("C09.f", "T5", "orphans are reclaimable: the cleanup scan lists every directory and keeps exactly the ids in storage.IDMap", 2)
 	if f := c.mustFn(snapPkg, "(*snapshotter).getCleanupDirectories"); f != nil {
